@@ -642,6 +642,23 @@ def check_against_sem(S, obj, sem, tol=1e-7):
                 return ("value", f"zero-probability outcome {x} does not carry the zero state")
         if abs(np.sum(d.ps) - 1) > 1e-7:
             return ("value", "probabilities do not sum to 1")
+        # look-up by outcome label: the tuple (x_earlier, ..., x_later) addresses the row-major entry of both the
+        # probabilities and the post-measurement states
+        if len(sem.shape) >= 1:
+            for k, idx in enumerate(np.ndindex(*sem.shape)):
+                lab = tuple(int(i) for i in idx)
+                try:
+                    st = obj.state(lab)
+                    pl = d[lab]
+                except Exception as e:  # noqa
+                    return ("label", f"look-up by outcome label {lab} raises {type(e).__name__}: {e}")
+                if st is not obj.states[k] and not np.array_equal(st.vec, obj.states[k].vec):
+                    return ("label", f"state({lab}) of an ensemble of shape {sem.shape} is not the post-measurement state of "
+                                     f"outcome {lab} (row-major entry {k})")
+                if pl != d.ps[k]:
+                    return ("label", f"prob_dist[{lab}] of shape {sem.shape} is not the row-major entry {k}")
+                if type(obj.state(k)) != State or obj.state(k) is not obj.states[k]:
+                    return ("label", f"state({k}) (int look-up) is not the {k}-th state")
         return None
     if sem.kind == "povm":
         if type(obj) != Povm:
